@@ -83,7 +83,25 @@ func owRun(variant string, c c17Case) c17Result {
 	return r
 }
 
-func init() { registerReplay("c17", c17Check) }
+func init() {
+	registerReplay("c17", c17Check)
+	registerReplay("c17big", c17BigCheck)
+}
+
+type c17Big struct {
+	SizeMiB          int    `json:"sizeMiB"`
+	Mode             string `json:"mode"`
+	MalformedLastRow bool   `json:"malformedLastRow"`
+}
+
+func c17BigCheck(b c17Big) string {
+	row := "- " + strings.Repeat("m", 1000) + "\n  - " + strings.Repeat("k", 1000) + "\n"
+	doc := strings.Repeat(row, (b.SizeMiB<<20)/len(row)+1)
+	if b.MalformedLastRow {
+		doc += "      - too deep\n"
+	}
+	return truncate(c17Check(c17Case{Doc: []byte(doc), Mode: b.Mode}), 2000)
+}
 
 func c17Check(c c17Case) string {
 	a, b := owRun("default", c), owRun("tinywasm", c)
@@ -220,7 +238,7 @@ func TestC17Exhaustive(t *testing.T) {
 
 func TestC17Constants(t *testing.T) {
 	col := coll("C17", "constants")
-	col.Rule = "the fixed hostile inputs of C12 x {text, JSON, dry-run}"
+	col.Rule = "the fixed hostile inputs of C12 x {text, JSON, dry-run}, multi-root documents beyond 64 KiB, and documents of 17 MiB (quick: text) / 17 and 33 MiB (thorough: every mode, also with a malformed last row)"
 	big := []string{strings.Repeat("- 0123456789012345678901234567\n", 2049), strings.Repeat("- r\n  - kkkkkkkkkkkkkkkkkkkkkkkkkkkkkkkkkkkkkkkk\n", 1700), "- a\n" + strings.Repeat("  - "+strings.Repeat("y", 100)+"\n", 700) + "- b\n"}
 	for _, d := range append(append([]string{}, c12Constants...), big...) {
 		for _, m := range []string{"text", "json", "dryrun"} {
@@ -228,6 +246,26 @@ func TestC17Constants(t *testing.T) {
 			c17Record(col, c, "constant", 0, 0)
 			if msg := c17Check(c); msg != "" {
 				violation(t, "C17", "c17", c, msg)
+			}
+		}
+	}
+	// very large documents (a size limit that only one build has would cut them silently): 17 MiB in the quick tier (text),
+	// 17 and 33 MiB in every mode in the thorough tier, well-formed and with a malformed last row
+	sizes, modes := []int{17}, []string{"text"}
+	if thorough() {
+		sizes, modes = []int{17, 33}, []string{"text", "json", "dryrun"}
+	}
+	for _, sz := range sizes {
+		for _, m := range modes {
+			for _, bad := range []bool{false, true} {
+				if !thorough() && bad {
+					continue
+				}
+				b := c17Big{SizeMiB: sz, Mode: m, MalformedLastRow: bad}
+				col.eval(true, hash64(fmt.Sprint(b)), "mode:"+m, fmt.Sprintf("size:%dMiB", sz))
+				if msg := c17BigCheck(b); msg != "" {
+					violation(t, "C17", "c17big", b, msg)
+				}
 			}
 		}
 	}
